@@ -56,17 +56,17 @@ PROPS = {
     "C09": {
         "harnesses": [{"name": "stack", "quick": 400000, "thorough": 4000000, "fuzz_runs": 400000,
                        "extra": {"quick": [["elim2", 400, "1,2,4,7,13,15", "0,1"]], "thorough": [["elim2", 400, "all", "all"]]}, "weight": 3},
-                      {"name": "fc_containers", "variants": list(range(25, 36)), "quick": 16000, "thorough": 240000, "fuzz_runs": 40000, "weight": 1}],
+                      {"name": "fc_containers", "variants": list(range(25, 36)), "quick": 8000, "thorough": 240000, "fuzz_runs": 40000, "weight": 1}],
         "libs": BOOST,
         "assumptions": [SC, FC_ASSUME, "Oracle: Wing-Gong linearizability against a LIFO model incl. the final drain; item accounting; intrusive nodes disposed exactly once; the elimination random engine is replaced by a case-seeded one through the documented trait."],
     },
     "C10": {
-        "harnesses": [{"name": "fc_containers", "variants": list(range(36, 44)), "quick": 24000, "thorough": 400000, "fuzz_runs": 60000}],
+        "harnesses": [{"name": "fc_containers", "variants": list(range(36, 44)), "quick": 16000, "thorough": 400000, "fuzz_runs": 60000}],
         "libs": BOOST, "assumptions": [SC, FC_ASSUME],
     },
     "C11": {
         "harnesses": [{"name": "mspq", "quick": 320000, "thorough": 3200000, "fuzz_runs": 400000, "weight": 3},
-                      {"name": "fc_containers", "variants": list(range(44, 49)), "quick": 16000, "thorough": 240000, "fuzz_runs": 40000, "weight": 1}],
+                      {"name": "fc_containers", "variants": list(range(44, 49)), "quick": 8000, "thorough": 240000, "fuzz_runs": 40000, "weight": 1}],
         "libs": BOOST, "assumptions": [SC, FC_ASSUME, "MSPriorityQueue: conservation, conservative push-failure/empty-pop rules, drain order; linearizability against a bounded max-priority queue for every history in which no push overlaps a pop (phased programs and qualifying free ones)."],
     },
     "C12": {
@@ -75,7 +75,7 @@ PROPS = {
     },
     "C13": {
         "harnesses": [{"name": "lists_hp", "quick": 240000, "thorough": 2400000, "fuzz_runs": 300000},
-                      {"name": "lists_rcu", "quick": 160000, "thorough": 1600000, "fuzz_runs": 200000}],
+                      {"name": "lists_rcu", "quick": 120000, "thorough": 1600000, "fuzz_runs": 200000}],
         "assumptions": [SC, MAP_ASSUME],
     },
     "C14": {
@@ -176,7 +176,7 @@ PROPS = {
     "C06": {
         "harnesses": [
             {"name": "queue_ms", "quick": 400000, "thorough": 4000000, "fuzz_runs": 600000, "weight": 2},
-            {"name": "fc_containers", "variants": list(range(0, 25)), "quick": 24000, "thorough": 400000, "fuzz_runs": 60000, "weight": 2},
+            {"name": "fc_containers", "variants": list(range(0, 25)), "quick": 12000, "thorough": 400000, "fuzz_runs": 60000, "weight": 2},
         ],
         "libs": BOOST,
         "assumptions": [SC, "Oracle: Wing-Gong linearizability search against a sequential FIFO model, including the final drain; intrusive nodes: disposer exactly once per node after SMR destruction, link part ASan-poisoned after disposal."],
